@@ -118,6 +118,17 @@ def run(ctx):
         ts = ctx.rng.choice(tss); st, en = ctx.rng.choice(sets)
         one(ctx, list(ts), list(st), list(en), ctx.rng.choice([1, 2, 3, 4, 7]), SCALES[k % len(SCALES)],
             ["s", "ms", "us"][k % 3], dtypes[k % 4], lines, meta)
+    # longer supports: 3-4 intervals, some much shorter than the bin (shorter than HALF a bin: no bin at all) and holding samples,
+    # followed by longer ones - state carried from one interval to the next shows here
+    for k in range(700 if ctx.quick else 8000):
+        st, en = gen.rand_canonical(ctx.rng, 4, 16)
+        if not st:
+            continue
+        ts = sorted(ctx.rng.randrange(0, 17) for _ in range(ctx.rng.randint(0, 9)))
+        if k % 2:       # put samples on the ends of the first intervals
+            ts = sorted(ts + [en[0]] + ([st[0]] if k % 4 == 1 else []))
+        one(ctx, list(ts), list(st), list(en), ctx.rng.choice([2, 3, 5, 7, 9, 12]), SCALES[k % len(SCALES)],
+            ["s", "ms", "us"][k % 3], dtypes[k % 4], lines, meta)
     for k in range(60 if ctx.quick else 600):
         group_case(ctx, ctx.rng.choice([2000, 10**9]))
     out = ctx.lean.run(lines) if ctx.lean else None
@@ -135,7 +146,7 @@ def run(ctx):
 def replay(ctx, rec):
     n0 = len(ctx.failures); i = rec["input"]
     if "ts" not in i:
-        print("group case: re-run with the recorded seed"); return False
+        return None      # main re-executes the recorded run
     lines, meta = [], []
     dt = {"None": None, "<class 'numpy.int64'>": np.int64, "<class 'numpy.int32'>": np.int32, "<class 'numpy.float64'>": np.float64}
     one(ctx, i["ts"], i["st"], i["en"], i["bin_ns"] * 2 // i["scale_ns"], i["scale_ns"], i["unit"], dt.get(i["dtype"]), lines, meta)
